@@ -5,4 +5,6 @@ CONF = {
     "C03": dict(pkg="props/c03", quick=dict(checks=1500, shards=8, timeout=600), thorough=dict(checks=40000, shards=16, timeout=3600)),
     "C05": dict(pkg="props/c05", quick=dict(checks=2000, shards=8, timeout=600), thorough=dict(checks=40000, shards=16, timeout=3600)),
     "C07": dict(pkg="props/c07", quick=dict(checks=2500, shards=8, timeout=600), thorough=dict(checks=60000, shards=16, timeout=3600)),
+    "C02": dict(pkg="props/c02", quick=dict(checks=1500, shards=8, timeout=600), thorough=dict(checks=60000, shards=16, timeout=3600)),
+    "C08": dict(pkg="props/c08", quick=dict(checks=1500, shards=8, timeout=600), thorough=dict(checks=60000, shards=16, timeout=3600)),
 }
